@@ -97,7 +97,7 @@ func indexCases(run *hx.Run, low *sdb.Database, d *hx.DB, t *hx.TableInfo) []idx
 func C02(run *hx.Run) {
 	run.Rule = "for every index sqlittle's Schema lists on every table of every generated database: IndexedSelect rows (all columns + rowid) vs SQLite's SELECT ... [WHERE partial] ORDER BY <index_xinfo columns with COLLATE and ASC/DESC incl. the appended rowid / pk columns>; count asserted separately. distinct = (database, index) pairs with at least one row"
 	run.Assumptions = append(stdAssumptions, "partial WHERE text and expression-column text come from the generator (it wrote the DDL); everything else from PRAGMA index_xinfo")
-	profiles := hx.Profiles(run.Tier, run.Seed)
+	profiles := hx.ProfilesReps(run.Tier, run.Seed, 8)
 	forEachProfile(run, profiles, func(w *worker, d *hx.DB, idx int) {
 		db, err := sqlittle.Open(d.Path)
 		if err != nil {
